@@ -375,10 +375,26 @@ func (c *Ctx) reachingStore(al *ssa.Alloc, ld *ssa.UnOp, ldCtx *Ctx) (ssa.Value,
 			}
 		}
 	}
-	// choose the latest store that dominates `at`, provided every store dominates `at`.
+	// choose the latest store that dominates `at`; a store that `at` dominates and that cannot flow back
+	// to `at` through a loop is a later assignment and is ignored.
 	var best *ssa.Store
+	var loops []*Loop
 	for _, st := range stores {
 		if !instrDominates(st, at) {
+			if instrDominates(at, st) {
+				if loops == nil {
+					loops = naturalLoops(al.Parent())
+				}
+				inLoop := false
+				for _, l := range loops {
+					if l.Blocks[at.Block()] && l.Blocks[st.Block()] {
+						inLoop = true
+					}
+				}
+				if !inLoop {
+					continue
+				}
+			}
 			return nil, nil
 		}
 		if best == nil || instrDominates(best, st) {
